@@ -497,13 +497,46 @@ def judge_dpd(obs, peer):
     return out
 
 
+def slow_idle_world(a_lifetime, a_hi):
+    """like idle_world, but the initial exchanges take long: the first three transmissions of the IKE_SA_INIT request and of
+    the IKE_AUTH request are lost (2 + 4 + 6 s each); returns (world, time the IKE_SA was created)"""
+    c = S.base_confs(a_over={'dpd': 3600, 'lifetime': a_lifetime}, b_over={'dpd': 3600, 'lifetime': 100000})
+    CTX.uniform_hi = a_hi
+    try:
+        w = S.new_world(c)
+        w.endpoints['B'].controller.cookie_threshold = -1          # one more round: the request has to come back with a cookie
+        w.sent_log, w.recv_log = [], []
+        w.step(('acquire', 'A', 0, 0))
+        t_created = w.clock
+        for exch in (34, 34, 35):
+            for _ in range(3):
+                for d in list(w.net):
+                    w.step(('drop', d.id))
+                sa = w.endpoints['A'].controller.ike_sas[0]
+                w.step(('tick', max(0.0, sa.retransmit_at - w.clock) + 0.01))
+            w.step(('deliver', w.net[0].id))
+            w.step(('deliver', w.net[0].id))
+        w.deliver_all()
+        w.history = []
+    finally:
+        CTX.uniform_hi = False
+    sas = w.endpoints['A'].controller.ike_sas
+    if len(sas) != 1 or sas[0].state != State.ESTABLISHED:
+        raise HarnessError('slow handshake did not establish: %s' % [x.state.name for x in sas])
+    return w, t_created
+
+
 def run_lifetime(a_hi, peer):
     """A's IKE_SA lifetime = LIFETIME (+ jitter seam at an extreme); peer answers / is silent / always collides"""
-    w = idle_world(a_lifetime=LIFETIME, a_dpd=3600, a_hi=a_hi, b_lifetime=LIFETIME if peer.startswith('collides') else 100000)
+    if peer == 'answering-after-slow-handshake':
+        w, t_created = slow_idle_world(LIFETIME, a_hi)
+        peer = 'answering'
+    else:
+        w, t_created = idle_world(a_lifetime=LIFETIME, a_dpd=3600, a_hi=a_hi, b_lifetime=LIFETIME if peer.startswith('collides') else 100000), None
     if peer == 'collides-once':
         # the two ends draw different random delays before they try again after TEMPORARY_FAILURE (what the jitter is for)
         w.endpoints['A'].uniform_hi, w.endpoints['B'].uniform_hi = False, True
-    t0 = w.clock
+    t0 = w.clock if t_created is None else t_created
     first_spi = bytes(w.endpoints['A'].controller.ike_sas[0].my_spi)
     rekey_at = delete_at = gone_at = None
     for k in range(1, LIFETIME + 75):
@@ -528,6 +561,7 @@ def run_lifetime(a_hi, peer):
         if gone_at is None and not any(bytes(s.my_spi) == first_spi for s in w.endpoints['A'].controller.ike_sas):
             gone_at = w.clock - t0
     return dict(rekey_at=rekey_at, delete_at=delete_at, gone_at=gone_at, alive=all(e.alive for e in w.endpoints.values()),
+                slack=0 if t_created is None else 40,
                 a_sas=[(s.state.name, len(s.child_sas)) for s in w.endpoints['A'].controller.ike_sas],
                 sad_diff=P.sad_diff(w.endpoints['A']), w=w)
 
@@ -536,12 +570,13 @@ def judge_lifetime(obs, a_hi, peer):
     out = []
     if not obs['alive']:
         return [('daemon-died', 'an endpoint died')]
-    lo, hi = LIFETIME, LIFETIME + 5 + 1
+    # (after a slow handshake the lifetime may be counted from the creation of the IKE_SA or from its establishment)
+    lo, hi = LIFETIME, LIFETIME + 5 + 1 + obs.get('slack', 0)
     if obs['rekey_at'] is None:
         out.append(('no-rekey', 'IKE_SA never started its rekey (lifetime %d s)' % LIFETIME))
     elif not (lo - 0.001 <= obs['rekey_at'] <= hi + 0.001):
         out.append(('rekey-time', 'IKE_SA rekey started at %.0f s, allowed [%d, %d]' % (obs['rekey_at'], lo, hi)))
-    if peer in ('answering', 'collides-once'):
+    if peer in ('answering', 'collides-once', 'answering-after-slow-handshake'):
         if obs['gone_at'] is None:
             out.append(('old-ike-sa-stays', 'rekeyed IKE_SA still held %d s later' % 70))
         if not any(st == 'ESTABLISHED' and n == 1 for st, n in obs['a_sas']):
@@ -584,7 +619,7 @@ def dpd_cases():
         yield ('dpd', 0, 'silent-busy-sockets:' + what)
     yield ('dpd-childless', 0, 'silent')
     for a_hi in (False, True):
-        for peer in ('answering', 'silent', 'collides', 'collides-once'):
+        for peer in ('answering', 'silent', 'collides', 'collides-once', 'answering-after-slow-handshake'):
             yield ('life', a_hi, peer)
 
 
